@@ -50,21 +50,13 @@ ASSUMPTIONS = [
 UNPROVED = [
     "GCXS theorems are stated for arrays of the form _from_coo(c, ca) with c canonical (the form C05 proves for every "
     "array the library builds); that EVERY array satisfying gcxs_wfb is of that form is not proved",
-    "GCXS with 0 axes (source or target of reshape; finding zero_dim_gcxs_dok_input) is outside the GCXS model",
     "moveaxis_order = np_moveaxis_perm is proved for ndim <= 5 (the property's scope; exhaustive evaluation inside Coq, "
     "bound in the statement), not for arbitrary ndim",
     "index dtypes chosen by get_out_dtype in _transpose/_1d_reshape (C15) and the DOK paths (conversion to COO; C05/C12)",
 ]
 
 CLAUSES = {
-    13: "squeeze_negative_axis",
-    14: "squeeze_duplicate_axis",
-    15: "flip_repeated_axis",
-    16: "moveaxis_repeated_destination",
-    17: "broadcast_to_fewer_dims",
-    18: "pad_negative_width",
-    20: "reshape_several_minus1",
-    21: "roll_tuple_shift_single_axis",
+    21: "roll_tuple_shift_single_axis",      # documented restriction of sparse.roll; the only clause left (round 7)
 }
 
 
@@ -962,8 +954,6 @@ def campaign(build, tier, seed, report, budget=1):
             kind, clause = "value", "result_not_canonical"
         elif code == 4:
             kind, clause = "representation", "model_differs_from_spec_in_domain"
-        elif code == 3 and c["spec"]["format"] in ("gcxs", "dok") and len(c["spec"]["shape"]) == 0:
-            kind, clause = "value", "zero_dim_gcxs_dok_input"
         elif code == 3:
             kind, clause = "value", None
         else:
@@ -979,7 +969,7 @@ def campaign(build, tier, seed, report, budget=1):
         op = c["op"]
         if c["spec"]["format"] != "gcxs" or not r or "in" not in r:
             continue
-        if op["op"] not in ("transpose", "T", "mT", "moveaxis", "reshape", "flatten") or \
+        if op["op"] not in ("transpose", "T", "mT", "moveaxis", "reshape", "flatten", "squeeze", "broadcast_to") or \
                 (op["op"] == "mT" and op.get("api") != "method"):
             continue
         g_idx.append(i)
